@@ -311,6 +311,11 @@ func (cc *ClientConn) newStream(
 			s.SetSingleResponse()
 		}
 	}
+	if !desc.ClientStreams {
+		if s, ok := cs.(interface{ SetSingleRequest() }); ok {
+			s.SetSingleRequest()
+		}
+	}
 	return cs, nil
 }
 
